@@ -108,6 +108,10 @@ pub struct Target {
     pub maps: BTreeMap<u32, (u64, u64)>,
     pub syms: BTreeMap<String, u64>,
     pub fds: Vec<i32>,
+    /// the target's own walk of its linker list: (l_addr, l_ld, name)
+    pub dsos: Vec<(u64, u64, Vec<u8>)>,
+    /// r_version, r_brk, r_ldbase, &_DYNAMIC
+    pub rdebug: Option<(u32, u64, u64, u64)>,
     pub scratch: PathBuf,
     shared: *mut u8,
     mem: Option<std::fs::File>,
@@ -251,6 +255,8 @@ impl Target {
             maps: BTreeMap::new(),
             syms: BTreeMap::new(),
             fds: vec![],
+            dsos: vec![],
+            rdebug: None,
             scratch,
             shared: std::ptr::null_mut(),
             mem: None,
@@ -278,6 +284,13 @@ impl Target {
                     t.syms.insert(w[1].to_string(), u64::from_str_radix(w[2], 16).unwrap());
                 }
                 Some("fd") => t.fds.push(w[1].parse().unwrap()),
+                Some("rdebug") => {
+                    t.rdebug = Some((w[1].parse::<i32>().unwrap_or(0) as u32, u64::from_str_radix(w[2], 16).unwrap(), u64::from_str_radix(w[3], 16).unwrap(), u64::from_str_radix(w[4], 16).unwrap()));
+                }
+                Some("dso") => {
+                    let name: Vec<u8> = if w[3] == "-" { vec![] } else { (0..w[3].len() / 2).map(|i| u8::from_str_radix(&w[3][2 * i..2 * i + 2], 16).unwrap_or(b'?')).collect() };
+                    t.dsos.push((u64::from_str_radix(w[1], 16).unwrap(), u64::from_str_radix(w[2], 16).unwrap(), name));
+                }
                 _ => {}
             }
         }
